@@ -89,18 +89,18 @@ def digitRunEnd : List Nat → Nat → Nat
 /-- `none` = the C function returns -1. -/
 def findSeparator (bs : List Nat) : Option Nat :=
   let len := bs.length
-  let at (i : Nat) : Nat := bs.getD i 0
+  let byteAt (i : Nat) : Nat := bs.getD i 0
   if len == 7 then some 7
-  else if at 4 == 45 then            -- '-'
-    if at 5 == 87 then               -- 'W'
+  else if byteAt 4 == 45 then            -- '-'
+    if byteAt 5 == 87 then               -- 'W'
       if len < 8 then none
-      else if len > 8 && at 8 == 45 then
+      else if len > 8 && byteAt 8 == 45 then
         if len == 9 then none
-        else if len > 10 && isDigitB (at 10) then some 8
+        else if len > 10 && isDigitB (byteAt 10) then some 8
         else some 10
       else some 8
     else some 10
-  else if at 4 == 87 then
+  else if byteAt 4 == 87 then
     let idx := digitRunEnd (bs.drop 7) 7
     if idx < 9 then some idx
     else if idx % 2 == 0 then some 7 else some 8
